@@ -6,6 +6,7 @@ import (
 	"strconv"
 	"strings"
 	"testing"
+	"time"
 
 	"pgregory.net/rapid"
 	"verif/vk"
@@ -84,6 +85,10 @@ func c03Vars(d string) map[string]string {
 var c03Debug = os.Getenv("C03_DEBUG") != ""
 
 func c03Exec(ctx *vk.Ctx, c c03Case) error {
+	if c03Debug {
+		t0 := time.Now()
+		defer func() { fmt.Printf("C03 case: %d calls, %v\n", len(c.Calls), time.Since(t0)) }()
+	}
 	src := c.Prog.Src + c03RunAllSrc(c.Prog, c.Calls)
 	// ---- execution P
 	p, err := rkNew()
@@ -101,7 +106,7 @@ func c03Exec(ctx *vk.Ctx, c c03Case) error {
 		ctx.Class("discard:deploy-failed")
 		return nil
 	}
-	prev, err := p.C.QEval(c03Pkg, "Dump()")
+	prev, err := p.QStr(c03Pkg, "Dump()")
 	if err != nil {
 		return fmt.Errorf("P: Dump() after deploy failed: %v", err)
 	}
@@ -133,7 +138,7 @@ func c03Exec(ctx *vk.Ctx, c c03Case) error {
 			return fmt.Errorf("P: call %d: %v", i, err)
 		}
 		pRes = append(pRes, s)
-		d, err := p.C.QEval(c03Pkg, "Dump()")
+		d, err := p.QStr(c03Pkg, "Dump()")
 		if err != nil {
 			return fmt.Errorf("P: Dump() after call %d failed: %v", i, err)
 		}
@@ -149,7 +154,7 @@ func c03Exec(ctx *vk.Ctx, c c03Case) error {
 		}
 		prevVars = vars
 	}
-	pFinal, err := p.C.QEval(c03Pkg, "Dump()")
+	pFinal, err := p.QStr(c03Pkg, "Dump()")
 	if err != nil {
 		return fmt.Errorf("P: final Dump() failed: %v", err)
 	}
@@ -157,7 +162,7 @@ func c03Exec(ctx *vk.Ctx, c c03Case) error {
 		if err := p.C.Restart(); err != nil {
 			return fmt.Errorf("P: final restart: %v", err)
 		}
-		again, err := p.C.QEval(c03Pkg, "Dump()")
+		again, err := p.QStr(c03Pkg, "Dump()")
 		if err != nil || again != pFinal {
 			return fmt.Errorf("P: Dump() differs after a restart:\n before=%s\n after =%s (%v)", pFinal, again, err)
 		}
@@ -200,7 +205,7 @@ func c03Exec(ctx *vk.Ctx, c c03Case) error {
 	if parts[len(c.Calls)] != pFinal {
 		return fmt.Errorf("final Dump() differs:\n separate txs: %s\n one tx      : %s", pFinal, parts[len(c.Calls)])
 	}
-	mFinal, err := m.C.QEval(c03Pkg, "Dump()")
+	mFinal, err := m.QStr(c03Pkg, "Dump()")
 	if err != nil || mFinal != pFinal {
 		return fmt.Errorf("final Dump() of the one-tx chain after commit differs:\n separate txs: %s\n one tx      : %s (%v)", pFinal, mFinal, err)
 	}
